@@ -622,6 +622,20 @@ def m_ord_then_with(ctx, cty, a):
 
 
 # ------------------------------------------------------------------ Vec / slices
+class ByteCells:
+    """list-like view of the bytes of a Vec<u8> so that `v[i] = b` writes through"""
+    def __init__(self, sobj):
+        self.sobj = sobj
+
+    def __getitem__(self, i):
+        return self.sobj.s.byte_at(i)
+
+    def __setitem__(self, i, b):
+        cs = list(self.sobj.s.chars)
+        cs[i] = b
+        self.sobj.s = SStr.of_chars(cs)
+
+
 def is_u8(t):
     return t is not None and t.kind == "path" and t.head() == "u8"
 
@@ -941,7 +955,12 @@ def m_index(ctx, cty, a):
             if lo > hi or hi > n:
                 raise PanicPath("byte index out of range (%d..%d of %d)" % (lo, hi, n), "bounds")
             return s.slice(lo, hi)
-        raise Inconclusive("str index %r" % (idx,))
+        i = ctx.concretize(idx, "byte index")
+        if not (0 <= i < len(s)):
+            raise PanicPath("index out of bounds: the len is %d but the index is %d" % (len(s), i), "bounds")
+        if isinstance(v, StringObj):
+            return Ref(ByteCells(v), i, True)
+        return new_ref(s.byte_at(i))
     if isinstance(v, MapObj):
         i = map_find(ctx, v, idx)
         if i is None:
